@@ -3,6 +3,7 @@ package p2px
 import (
 	"context"
 	"encoding/binary"
+	"errors"
 	"fmt"
 	"io"
 	"math"
@@ -11,6 +12,8 @@ import (
 	"time"
 
 	"github.com/ipfs/go-datastore"
+	"github.com/libp2p/go-libp2p/core/host"
+	"github.com/libp2p/go-libp2p/core/peer"
 	mocknet "github.com/libp2p/go-libp2p/p2p/net/mock"
 
 	"github.com/celestiaorg/go-libp2p-messenger/serde"
@@ -134,6 +137,10 @@ func (r *recStore) Get(ctx context.Context, hash header.Hash) (*vk.H, error) {
 	return r.Store.Get(ctx, hash)
 }
 
+// Rollback (c10Case.Rollback != ""): a two-request history on one server instance. The first request (Kind
+// "head" | "range" | "hash", always touching the head) is answered, then the store's head side is rolled back to
+// RollTo and re-grown on another fork up to the old height, then the second request (Rollback = "head" | "range" |
+// "hash-new" | "hash-old") is sent: every OK body must be the store's current header.
 type c10Case struct {
 	Tail   uint64 `json:"tail"`
 	Head   uint64 `json:"head"` // 0 = empty store
@@ -144,8 +151,10 @@ type c10Case struct {
 	Raw    string `json:"raw,omitempty"`
 	// GrowAt/GrowBy: right after the GrowAt-th store call of the request (1-based; 0 = never) the store
 	// receives GrowBy more headers (the node keeps syncing while it serves)
-	GrowAt int    `json:"grow_at,omitempty"`
-	GrowBy uint64 `json:"grow_by,omitempty"`
+	Rollback string `json:"rollback,omitempty"`
+	RollTo   uint64 `json:"roll_to,omitempty"`
+	GrowAt   int    `json:"grow_at,omitempty"`
+	GrowBy   uint64 `json:"grow_by,omitempty"`
 	// StallAt: the StallAt-th store call of the request (1-based; 0 = never) blocks until the context
 	// the server gave it ends
 	StallAt int `json:"stall_at,omitempty"`
@@ -501,7 +510,7 @@ func c10Check(run *vk.Run, c c10Case, o c10Out) {
 func TestC10(t *testing.T) {
 	run := vk.NewRun("C10", "model_checking")
 	defer run.Finish()
-	run.SetRule("real ExchangeServer over a real pruned store.Store (tail > 1) behind a recording proxy, requests written as raw frames on a mocknet stream: all (origin, amount) pairs over {0,1,tail-1,tail,tail+1,mid,head-1,head,head+1,head+64,2^64-2,2^64-1} x {0,1,2,63,64,65,head-tail+5,2^63,2^64-1}, hash requests {present,pruned,unknown,empty,512KiB}, raw byte strings {empty, one byte, prefix only, truncated, oneof unset, random, oversized prefix, silent}; deviation: for range requests on the small stores the store grows by {3,100} headers right after the k-th store call of the request, for every k the fault-free run makes, and the k-th store call stalls until the context the server gave it ends; distinct = (request class relative to tail/head, reply shape)")
+	run.SetRule("real ExchangeServer over a real pruned store.Store (tail > 1) behind a recording proxy, requests written as raw frames on a mocknet stream: all (origin, amount) pairs over {0,1,tail-1,tail,tail+1,mid,head-1,head,head+1,head+64,2^64-2,2^64-1} x {0,1,2,63,64,65,head-tail+5,2^63,2^64-1}, hash requests {present,pruned,unknown,empty,512KiB}, raw byte strings {empty, one byte, prefix only, truncated, oneof unset, random, oversized prefix, silent}; deviation: for range requests on the small stores the store grows by {3,100} headers right after the k-th store call of the request, for every k the fault-free run makes, and the k-th store call stalls until the context the server gave it ends; two-request histories on one server instance {head, range ending at the head, hash of the head} x head-side rollback of 1 or 3 headers re-grown on another fork x {head, range, hash of the new head, hash of the deleted head}: every OK body is the store's current header; distinct = (request class relative to tail/head, reply shape)")
 	run.Assume("work is measured as headers requested from the store proxy and datastore reads under the real store")
 	_ = datastore.ErrNotFound
 
@@ -509,6 +518,11 @@ func TestC10(t *testing.T) {
 	if is, err := vk.ReplayCase(&rc); is {
 		if err != nil {
 			t.Fatal(err)
+		}
+		if rc.Rollback != "" {
+			c10RollbackExec(t, run, rc)
+			fmt.Printf("replayed %+v: violations=%d\n", rc, run.Violations())
+			return
 		}
 		if o, ok := c10Exec(t, run, rc); ok {
 			c10Check(run, rc, o)
@@ -585,6 +599,16 @@ func TestC10(t *testing.T) {
 			gmu.Unlock()
 		}
 	})
+	// two-request histories on one server instance with a head-side rollback and re-growth on another fork in between
+	for _, first := range []string{"head", "range", "hash"} {
+		for _, second := range []string{"head", "range", "hash-new", "hash-old"} {
+			for _, depth := range []uint64{1, 3} {
+				rc := c10Case{Kind: first, Rollback: second, Tail: 5, Head: 30, RollTo: 30 - depth + 1}
+				c10RollbackExec(t, run, rc)
+				run.AddEval(1)
+			}
+		}
+	}
 	run.Set("store_grows_cases", len(cases))
 	run.Set("cases", len(cases))
 	q := vk.NewWorkQueue(len(cases))
@@ -616,5 +640,150 @@ func TestC10(t *testing.T) {
 			run.HarnessError("replay divergence on %s", cases[i])
 		}
 		run.AddValidated(1)
+	}
+}
+
+// c10Request sends one request on a fresh stream and returns the decoded OK bodies and the status codes.
+func c10Request(client host.Host, srv peer.ID, req *p2p_pb.HeaderRequest) (hs []*vk.H, codes []p2p_pb.StatusCode, err error) {
+	ctx, cancel := context.WithTimeout(context.Background(), 100*time.Second)
+	defer cancel()
+	s, err := client.NewStream(ctx, srv, protoID)
+	if err != nil {
+		return nil, nil, err
+	}
+	defer s.Close()
+	if _, err := serde.Write(s, req); err != nil {
+		return nil, nil, err
+	}
+	_ = s.CloseWrite()
+	call := vk.Spawn(func() (int, error) {
+		for i := 0; i < 100; i++ {
+			resp := new(p2p_pb.HeaderResponse)
+			if _, err := serde.Read(s, resp); err != nil {
+				return 0, nil
+			}
+			codes = append(codes, resp.StatusCode)
+			if resp.StatusCode == p2p_pb.StatusCode_OK {
+				h := &vk.H{}
+				if uerr := h.UnmarshalBinary(resp.Body); uerr != nil {
+					return 0, uerr
+				}
+				hs = append(hs, h)
+			}
+		}
+		return 0, nil
+	})
+	for i := 0; i < 120 && !call.Done(); i++ {
+		vk.Settle()
+		if !call.Done() {
+			vk.Advance(time.Second)
+		}
+	}
+	if !call.Done() {
+		return nil, nil, errors.New("no end of stream")
+	}
+	return hs, codes, call.Err
+}
+
+// c10RollbackExec runs one two-request history (see c10Case.Rollback).
+func c10RollbackExec(t *testing.T, run *vk.Run, c c10Case) {
+	run.Inflight(shardOf(t), c)
+	feat := fmt.Sprintf("rollback,first=%s,second=%s,depth=%d", c.Kind, c.Rollback, c.Head-c.RollTo)
+	viol := func(clause, format string, a ...any) {
+		run.Violate("C10/"+clause+"/"+feat, c, "%s: %s", feat, fmt.Sprintf(format, a...))
+	}
+	br := vk.Bubble(t, func() {
+		mn, err := mocknet.FullMeshConnected(2)
+		if err != nil {
+			run.HarnessError("C10 mocknet: %v", err)
+			return
+		}
+		defer mn.Close()
+		hosts := mn.Hosts()
+		client, srvHost := hosts[0], &dlHost{Host: hosts[1], honour: true}
+		st, err := store.NewStore[*vk.H](vk.NewLogDS().Wrap(false), store.WithWriteBatchSize(16))
+		if err != nil {
+			run.HarnessError("C10 store: %v", err)
+			return
+		}
+		bg := context.Background()
+		_ = st.Start(bg)
+		defer st.Stop(bg)
+		_ = st.Append(bg, c10Chain.Slice(1, c.Head)...)
+		vk.Settle()
+		_ = st.Sync(bg)
+		if c.Tail > 1 {
+			_ = st.DeleteRange(bg, 1, c.Tail)
+		}
+		srv, err := p2p.NewExchangeServer[*vk.H](srvHost, st, p2p.WithNetworkID[p2p.ServerParameters](netID))
+		if err != nil {
+			run.HarnessError("C10 server: %v", err)
+			return
+		}
+		_ = srv.Start(bg)
+		defer srv.Stop(bg)
+		mk := func(kind string, cur vk.Chain) *p2p_pb.HeaderRequest {
+			switch kind {
+			case "head":
+				return &p2p_pb.HeaderRequest{Data: &p2p_pb.HeaderRequest_Origin{Origin: 0}, Amount: 1}
+			case "range":
+				return &p2p_pb.HeaderRequest{Data: &p2p_pb.HeaderRequest_Origin{Origin: c.Head - 3}, Amount: 4}
+			case "hash", "hash-new":
+				return &p2p_pb.HeaderRequest{Data: &p2p_pb.HeaderRequest_Hash{Hash: cur[c.Head].Hash()}, Amount: 1}
+			case "hash-old":
+				return &p2p_pb.HeaderRequest{Data: &p2p_pb.HeaderRequest_Hash{Hash: c10Chain[c.Head].Hash()}, Amount: 1}
+			}
+			return nil
+		}
+		check := func(when, kind string, hs []*vk.H, codes []p2p_pb.StatusCode, cur vk.Chain) {
+			for _, h := range hs {
+				if h.Ht == 0 || h.Ht > c.Head || string(h.Hash()) != string(cur[h.Ht].Hash()) {
+					viol("serves-header-not-in-store", "%s, %s request: OK reply carries %v, the store holds %v at that height", when, kind, h, cur.At(h.Ht))
+				}
+			}
+			switch kind {
+			case "head":
+				if len(hs) != 1 || hs[0].Ht != c.Head {
+					viol("head-request-not-the-head", "%s: head request answered with %v (codes %v), the store's head is %v", when, hs, codes, cur[c.Head])
+				}
+			case "range":
+				if len(hs) != 4 {
+					viol("wrong-headers", "%s: range request [%d..%d] answered with %v (codes %v)", when, c.Head-3, c.Head, vk.Heights(hs), codes)
+				}
+			case "hash", "hash-new":
+				if len(hs) != 1 || hs[0].Ht != c.Head {
+					viol("wrong-header-for-hash", "%s: request for the hash of the store's head answered with %v (codes %v)", when, hs, codes)
+				}
+			case "hash-old":
+				if len(hs) != 0 {
+					viol("wrong-header-for-hash", "%s: request for the hash of a header that was deleted answered with %v", when, hs)
+				}
+			}
+		}
+		hs, codes, err := c10Request(client, srvHost.ID(), mk(c.Kind, c10Chain))
+		if err != nil {
+			run.HarnessError("C10 rollback first request: %v", err)
+			return
+		}
+		check("before the rollback", c.Kind, hs, codes, c10Chain)
+		// roll the head side back and re-grow it on another fork
+		fork := c10Chain.Fork(c.RollTo-1, c.Head, c10Chain[1].Sig, 77)
+		if err := st.DeleteRange(bg, c.RollTo, c.Head+1); err != nil {
+			run.HarnessError("C10 rollback DeleteRange: %v", err)
+			return
+		}
+		_ = st.Append(bg, fork.Slice(c.RollTo, c.Head)...)
+		vk.Settle()
+		_ = st.Sync(bg)
+		hs, codes, err = c10Request(client, srvHost.ID(), mk(c.Rollback, fork))
+		if err != nil {
+			run.HarnessError("C10 rollback second request: %v", err)
+			return
+		}
+		check("after the rollback", c.Rollback, hs, codes, fork)
+		run.Distinct(fmt.Sprintf("%s|%d-ok", feat, len(hs)))
+	})
+	if br.Panic != "" {
+		viol("panic", "%s", br.Panic)
 	}
 }
